@@ -93,6 +93,34 @@ MISSED = {
     "C17-8": "all strings through one `@sh` call",
     "C19-7": "malformed CSV / TSV records",
     "C19-8": "first input without an extension / stdin followed by a file with one",
+    "C02-9": "`ctxassign` law with compound assignment (`.items[] | .a += n`: every context node updated exactly once)",
+    "C02-10": "`rhsread` law: `setpath(P; E // alt)` with E reading through nulls",
+    "C03-9": "`side` family form 3: a derived value deleted from inside an assignment / a variable binding",
+    "C03-10": "`fresh` family on documents that come out of load(): several loads of one file in one evaluation",
+    "C04-9": "right operand shared by several merges of one evaluation (and one level further down)",
+    "C05-9": "explicit null root (`~`, `null`) as first document behind a leading marker / comment block",
+    "C05-10": "zero-padded integers (0644, 007, -007, 00) in the YAML generator",
+    "C06-9": "explicitly tagged scalars written in quotes (`!!int \"8080\"`, `!!bool 'False'`, `!!null \"\"`)",
+    "C06-10": "timestamp scalars in spellings a re-formatting would change (the independent reader types them as strings)",
+    "C07-9": "line family: a map edited through a variable before it is assigned / appended",
+    "C07-10": "line family: a merge whose left operand is a map of the document, as the value of an assignment",
+    "C08-9": "anchored family: an anchored node and aliases of it inside an un-anchored entry of a merged map; sub-tree encoders",
+    "C09-9": "layout variants through the real binary as an expression FILE (`--from-file`) next to the same text as an argument",
+    "C09-10": "argument family: `parent(N)` followed directly by a traversal",
+    "C10-9": "eval-all family: contexts that start with the document root and go on with nodes inside it (`(., .[]) | [kind]`)",
+    "C12-9": "pair class long_line: a line longer than any reader buffer in front of what the edit changes",
+    "C12-10": "pair class symlink_target: the -i target is a symbolic link (faults and kills on every step as for the others)",
+    "C13-9": "route 2c: aliases resolved once by an encoder, anchored values edited, then explode (== the same without the first step)",
+    "C13-10": "anchors on map keys (never aliased: explode must still strip them)",
+    "C14-10": "decoder-state family: several input files per input format == the files read one by one (eval and eval-all)",
+    "C15-10": "sort_by over scalars with a key function that is not injective on them",
+    "C16-9": "path / key / parent asked twice within ONE evaluation with other questions in between",
+    "C16-10": "delete-then-look forms (`del(.y[i]) | .y`); positions in sequences must be integers in `key` and `path`",
+    "C17-9": "-o=shell documents with literal / folded block scalars under every chomping indicator",
+    "C17-10": "@sh over items that the YAML source spells as aliases of anchored strings",
+    "C18-10": "ragged records for pivot (several keys that only later records have) in the expression pool",
+    "C19-9": "B-inject: a value the JSON encoder must refuse under -C / -M / -I0 / -P companions",
+    "C19-10": "B-inject: one malformed XML file among several XML inputs (any position, eval and eval-all)",
 }
 REGRESSED = {
     "C11-1": "caught when delivered (4 violation lines), lost when the generator grew (0 of 40 k cases), caught again after reversed slices were made denser and the quick tier raised to 100 k cases",
@@ -107,7 +135,7 @@ rows = []
 os.makedirs(os.path.join(HERE, "seeded"), exist_ok=True)
 for name in sorted(os.listdir(src)):
     d = os.path.join(src, name)
-    if not re.fullmatch(r"C\d\d-\d", name) or not os.path.isfile(os.path.join(d, "patch.diff")):
+    if not re.fullmatch(r"C\d\d-\d+", name) or not os.path.isfile(os.path.join(d, "patch.diff")):
         continue
     resf = os.path.join(resdir, name + ".txt")
     if not os.path.isfile(resf):
@@ -131,7 +159,7 @@ for name in sorted(os.listdir(src)):
     for f in os.listdir(d):
         if f in ("patch.diff", "demo.sh") or f.endswith("_test.go"):
             shutil.copy(os.path.join(d, f), os.path.join(out, f))
-    rnd = {"1": 1, "2": 1, "3": 2, "4": 2, "5": 3, "6": 3}.get(name[-1], 4)
+    rnd = {"1": 1, "2": 1, "3": 2, "4": 2, "5": 3, "6": 3, "7": 4, "8": 4, "9": 5, "10": 5}[name.split("-")[1]]
     new = {
         "id": name,
         "property": meta.get("property", name[:3]),
